@@ -157,7 +157,7 @@ def hs_setup(ctx):
     })
 
     def get_subcommands(ctx_, a, k):
-        ctx_.event("get_subcommands", k.get("prefix"), k.get("fail_no_subcommand"))
+        ctx_.event("get_subcommands", k.get("prefix"), k.get("fail_no_subcommand"), a[0], a[1])
         which = ctx_.choose(2, "selected")
         if which == 0:
             return (None, None)
@@ -172,11 +172,12 @@ def hs_setup(ctx):
         "__setitem__": lambda c, s_, a, k: (store.__setitem__(a[0], a[1]), c.event("store", a[0], a[1]))[0],
     })
     calls = {"_ActionSubCommands.get_subcommands": get_subcommands, "_ActionSubCommands.handle_subcommands": recursive, "Namespace": lambda c, a, k: empty}
-    noop = (lambda c, a, k: c.event("parent_parsers_context", a[0]), lambda c, t, e: False)
+    noop = (lambda c, a, k: c.event("parent_parsers_context", a[0], a[1] if len(a) > 1 else None), lambda c, t, e: False)
     fail = z3.Bool("fail_no_subcommand")
-    return Setup(env={"parser": Rec("ArgumentParser"), "cfg": cfg, "env": env_on, "defaults": defaults, "prefix": prefix, "fail_no_subcommand": fail},
+    the_parser = Rec("ArgumentParser")
+    return Setup(env={"parser": the_parser, "cfg": cfg, "env": env_on, "defaults": defaults, "prefix": prefix, "fail_no_subcommand": fail},
                  calls=calls, cms={"parent_parsers_context": noop},
-                 data=dict(env_on=env_on, defaults=defaults, has_inner=has_inner, given=given if given_present else empty, prefix=prefix, sub_src=sub_src, store=store, subparser=subparser, fail=fail))
+                 data=dict(parser=the_parser, cfg=cfg, env_on=env_on, defaults=defaults, has_inner=has_inner, given=given if given_present else empty, prefix=prefix, sub_src=sub_src, store=store, subparser=subparser, fail=fail))
 
 
 def hs_post(ctx, st, result):
@@ -184,6 +185,11 @@ def hs_post(ctx, st, result):
     ev = ctx.events
     selected = any(x.startswith("selected=1") for x in ctx.decisions_txt)
     key = d["prefix"] + "fit"
+    gs = [e for e in ev if e[0] == "get_subcommands"]
+    ctx.oblige("post", "the-selection-is-made-on-this-parser-and-this-configuration,with-the-caller's-prefix-and-failure-mode", len(gs) == 1 and gs[0][3] is d["parser"] and gs[0][4] is d["cfg"] and gs[0][1] == d["prefix"] and gs[0][2] is d["fail"])
+    ppc = [e for e in ev if e[0] == "parent_parsers_context"]
+    if selected and (d["env_on"] or d["defaults"]):
+        ctx.oblige("post", "the-sub-parser's-defaults/environment-are-read-with-(key, this parser)-registered-as-parent(so that parent default config files apply below the key)", len(ppc) >= 1 and all(e[1] == key and e[2] is d["parser"] for e in ppc))
     merges = [e for e in ev if e[0] == "merge"]
     if not selected:
         ctx.oblige("post", "nothing-selected=>cfg-untouched", not [e for e in ev if e[0] in ("store", "merge")])
